@@ -54,11 +54,12 @@ def tla_set(xs):
     return "{" + ", ".join(one(x) for x in xs) + "}"
 
 
-def mc_cfg(c, depth, emit):
+def mc_cfg(c, depth, emit, fullonly=False):
     return "\n".join([
         "SPECIFICATION Spec", "CONSTANTS",
         '  Family = "%s"' % c["family"], "  Groups = " + tla_set(c["groups"]), "  MaxEvents = %d" % depth,
-        "  Emit = %s" % ("TRUE" if emit else "FALSE"), "  MsgIds = " + tla_set(c["msgids"]),
+        "  Emit = %s" % ("TRUE" if emit else "FALSE"), "  EmitFullOnly = %s" % ("TRUE" if fullonly else "FALSE"),
+        "  MsgIds = " + tla_set(c["msgids"]),
         "  AuthModes = " + tla_set(c["auth"]), "  CredModes = " + tla_set(c["creds"]), "  Qoss = " + tla_set(c["qoss"]),
         "  Deviations = " + tla_set(sorted(k["sig"] for k in vlib.load_findings().get("known", [])
                                            if k.get("model") == "gateway")),
@@ -100,6 +101,21 @@ def run_mc(c, tier, emit=True):
         d = json.loads(js)
         scheds.append(d)
     return res, scheds
+
+
+ALLGROUPS = ["connect", "auth", "will", "sleep", "term", "other", "reg", "sub", "unsub", "pub", "pubrel", "cack", "bpub",
+             "back", "ping", "time", "longtime"]
+
+
+def run_walks(n, depth, family="data", groups=None, auth=(False,), msgids=(1, 2)):
+    """TLC -simulate: n random walks of `depth` events through the reference model (seeded)."""
+    c = dict(family=family, groups=groups or [g for g in ALLGROUPS if g != "term"], msgids=list(msgids), qoss=[0, 1, 2, 3],
+             auth=list(auth), creds=[False])
+    res = vlib.tlc("MC_GatewaySession", "mc.cfg", files={"mc.cfg": mc_cfg(c, depth, True, fullonly=True)}, workers=1,
+                   timeout=900, simulate="num=%d" % n, depth=depth + 2, extra=["-seed", str(vlib.seed())])
+    if "is violated" in res["out"]:
+        raise vlib.Inconclusive("design check failed during simulation:\n" + "\n".join(vlib.tlc_printed(res, "BAD:")[:3]))
+    return [json.loads(js) for js in vlib.tlc_printed(res, "SCHED:")]
 
 
 def to_scenarios(scheds, tag, tail=70):
